@@ -184,6 +184,7 @@ def _validate_one(args):
            "invariant": r.invariant, "rejected_at": r.rejected_at, "errors": r.errors}
     if not res["ok"] and r.invariant is None and r.rejected_at is None:
         res["error"] = "TLC failed without a verdict:\n" + r.out[-3000:]
+    res["drift"] = len(re.findall(r'<<"DRIFT_AT"', r.out))
     if r.invariant:
         # position of the violating record: value of l in the last printed state minus one
         ls = re.findall(r"/\\ l = (\d+)", r.out)
